@@ -8,7 +8,7 @@ from pathlib import Path
 
 from hypothesis import strategies as st
 
-from vlib.core import Outcome, in_sympy_piecewise_eval
+from vlib.core import Outcome, in_sympy_piecewise_eval, raised_inside_sympy_piecewise
 from vlib.spec import close
 
 ID = "C17"
@@ -72,9 +72,38 @@ class EG:
         d = self.draw
         if depth <= 0:
             return self.atom()
-        k = d(st.sampled_from(["atom", "+", "*", "-", "/", "pow", "exp", "ln", "piecewise", "call", "time", "+", "*"]))
+        k = d(st.sampled_from(["atom", "+", "*", "-", "/", "pow", "exp", "ln", "piecewise", "call", "time", "+", "*", "fn1", "minmax", "round", "logic"]))
         if k == "atom":
             return self.atom()
+        if k == "fn1":
+            # the MathML function table; the argument u = x / (1 + x^2) lies in [-0.5, 0.5]
+            self.feats.add("mathml_function")
+            x = self.expr(depth - 1)
+            u = ["/", x, ["+", ["num", 1.0], ["*", x, x]]]
+            f = d(st.sampled_from(sorted(FN1)))
+            shift = FN1[f][1]
+            if len(FN1[f]) > 2:
+                u = ["*", ["num", FN1[f][2]], u]
+            return ["fn1", f, u if shift == 0.0 else ["+", ["num", shift], u]]
+        if k == "minmax":
+            self.feats.add("mathml_function")
+            return [d(st.sampled_from(["min", "max"])), [self.expr(depth - 1) for _ in range(d(st.integers(2, 3)))]]
+        if k == "round":
+            # floor / ceil away from their jumps: 2.5 + u/2 lies in [2.25, 2.75]
+            self.feats.add("mathml_function")
+            x = self.expr(depth - 1)
+            u = ["/", x, ["+", ["num", 1.0], ["*", x, x]]]
+            return ["fn1", d(st.sampled_from(["floor", "ceil"])), ["+", ["num", 2.5], ["*", ["num", 0.5], u]]]
+        if k == "logic":
+            # conditions combined with and / or / xor / not; comparisons between values at least 0.5 apart
+            self.feats.add("logical_condition")
+            a = self.expr(depth - 1)
+            c1 = [d(st.sampled_from(["lt", "gt", "leq", "geq", "neq", "eq"])), a, ["+", a, ["num", d(st.sampled_from([0.5, -0.5, 1.0]))]]]
+            b = self.expr(depth - 1)
+            c2 = [d(st.sampled_from(["lt", "gt", "leq", "geq"])), b, ["-", b, ["num", d(st.sampled_from([0.5, -0.5]))]]]
+            op = d(st.sampled_from(["and", "or", "xor", "not"]))
+            cond = ["not", c1] if op == "not" else [op, c1, c2]
+            return ["piecewise", self.expr(depth - 1), cond, self.expr(depth - 1)]
         if k in ("+", "*", "-"):
             return [k, self.expr(depth - 1), self.expr(depth - 1)]
         if k == "/":
@@ -105,8 +134,78 @@ class EG:
         return self.atom()
 
 
+# formula name -> (reference implementation, shift added to the bounded argument u in [-0.5, 0.5] to stay inside the domain)
+FN1 = {
+    "abs": (abs, 0.0),
+    "sqrt": (math.sqrt, 1.0),
+    "sin": (math.sin, 0.0),
+    "cos": (math.cos, 0.0),
+    "tan": (math.tan, 0.0),
+    "sec": (lambda x: 1 / math.cos(x), 0.0),
+    "csc": (lambda x: 1 / math.sin(x), 1.0),
+    "cot": (lambda x: 1 / math.tan(x), 1.0),
+    "sinh": (math.sinh, 0.0),
+    "cosh": (math.cosh, 0.0),
+    "tanh": (math.tanh, 0.0),
+    "sech": (lambda x: 1 / math.cosh(x), 0.0),
+    "csch": (lambda x: 1 / math.sinh(x), 1.0),
+    "coth": (lambda x: 1 / math.tanh(x), 1.0),
+    "arcsin": (math.asin, 0.0),
+    "arccos": (math.acos, 0.0),
+    "arctan": (math.atan, 0.0),
+    "arcsec": (lambda x: math.acos(1 / x), 2.0),
+    "arccsc": (lambda x: math.asin(1 / x), 2.0),
+    "arccot": (lambda x: math.atan(1 / x), 2.0),
+    "arcsinh": (math.asinh, 0.0),
+    "arccosh": (math.acosh, 2.0),
+    "arctanh": (math.atanh, 0.0),
+    "arcsech": (lambda x: math.acosh(1 / x), 0.5, 0.8),  # argument in [0.1, 0.9]
+    "arccsch": (lambda x: math.asinh(1 / x), 1.0),
+    "arccoth": (lambda x: math.atanh(1 / x), 2.0),
+    "log10": (math.log10, 1.0),
+    "floor": (math.floor, 0.0),
+    "ceil": (math.ceil, 0.0),
+}
+
+
+_TIES: list[str] = []  # comparisons the reference evaluation found within rounding distance of equality
+
+
+def _cond_formula(c) -> str:
+    if c[0] == "not":
+        return f"!({_cond_formula(c[1])})"
+    if c[0] in ("and", "or"):
+        return f"(({_cond_formula(c[1])}) {'&&' if c[0] == 'and' else '||'} ({_cond_formula(c[2])}))"
+    if c[0] == "xor":
+        return f"xor({_cond_formula(c[1])}, {_cond_formula(c[2])})"
+    return f"{c[0]}({to_formula(c[1])}, {to_formula(c[2])})"
+
+
+def _cond_ev(c, env, fns, t) -> bool:
+    if c[0] == "not":
+        return not _cond_ev(c[1], env, fns, t)
+    if c[0] == "and":
+        return _cond_ev(c[1], env, fns, t) and _cond_ev(c[2], env, fns, t)
+    if c[0] == "or":
+        return _cond_ev(c[1], env, fns, t) or _cond_ev(c[2], env, fns, t)
+    if c[0] == "xor":
+        return _cond_ev(c[1], env, fns, t) != _cond_ev(c[2], env, fns, t)
+    a, b = ev(c[1], env, fns, t), ev(c[2], env, fns, t)
+    try:
+        # (two textually identical operands are the same computation in any faithful implementation: not a tie)
+        if abs(a - b) <= 1e-9 * max(1.0, abs(a), abs(b)) and to_formula(c[1]) != to_formula(c[2]):
+            _TIES.append(_cond_formula(c)[:120])
+    except TypeError:
+        pass
+    return {"lt": a < b, "gt": a > b, "leq": a <= b, "geq": a >= b, "eq": a == b, "neq": a != b}[c[0]]
+
+
 def to_formula(e) -> str:
     k = e[0]
+    if k == "fn1":
+        return f"{e[1]}({to_formula(e[2])})"
+    if k in ("min", "max"):
+        return f"{k}({', '.join(to_formula(a) for a in e[1])})"
     if k == "num":
         return repr(float(e[1]))
     if k == "sym":
@@ -122,8 +221,7 @@ def to_formula(e) -> str:
     if k in ("exp", "ln"):
         return f"{k}({to_formula(e[1])})"
     if k == "piecewise":
-        c = e[2]
-        return f"piecewise({to_formula(e[1])}, {c[0]}({to_formula(c[1])}, {to_formula(c[2])}), {to_formula(e[3])})"
+        return f"piecewise({to_formula(e[1])}, {_cond_formula(e[2])}, {to_formula(e[3])})"
     if k == "call":
         return f"{e[1]}({', '.join(to_formula(a) for a in e[2])})"
     raise ValueError(k)
@@ -131,6 +229,10 @@ def to_formula(e) -> str:
 
 def ev(e, env: dict, fns: dict, t: float):
     k = e[0]
+    if k == "fn1":
+        return FN1[e[1]][0](ev(e[2], env, fns, t))
+    if k in ("min", "max"):
+        return (min if k == "min" else max)(ev(a, env, fns, t) for a in e[1])
     if k == "num":
         return float(e[1])
     if k == "sym":
@@ -155,10 +257,7 @@ def ev(e, env: dict, fns: dict, t: float):
     if k == "ln":
         return math.log(ev(e[1], env, fns, t))
     if k == "piecewise":
-        c = e[2]
-        a, b = ev(c[1], env, fns, t), ev(c[2], env, fns, t)
-        ok = {"lt": a < b, "gt": a > b, "leq": a <= b, "geq": a >= b}[c[0]]
-        return ev(e[1], env, fns, t) if ok else ev(e[3], env, fns, t)
+        return ev(e[1], env, fns, t) if _cond_ev(e[2], env, fns, t) else ev(e[3], env, fns, t)
     if k == "call":
         f = fns[e[1]]
         vals = [ev(a, env, fns, t) for a in e[2]]
@@ -447,6 +546,12 @@ def _find(name: str, have) -> str | None:
     return None
 
 
+def _has_xor(doc: dict) -> bool:
+    import json
+
+    return '["xor"' in json.dumps([doc["reactions"], doc["rules"], doc["inits"], doc["functions"]])
+
+
 def compare(doc: dict, m, amounts: list[float], t: float, out: Outcome, tag: str) -> None:
     sp = {s["id"]: s for s in doc["species"]}
     try:
@@ -576,7 +681,22 @@ def compare(doc: dict, m, amounts: list[float], t: float, out: Outcome, tag: str
             return
 
 
+_VALUE_SIGS = ("derivative-differs", "flux-differs", "rule-value-differs", "initial-value-differs", "parameter-value-differs", "boundary-species-value")
+
+
 def examine(case: dict, ctx) -> Outcome:
+    _TIES.clear()
+    out = _examine(case, ctx)
+    if _TIES and any(any(v in sig for v in _VALUE_SIGS) for sig, _ in out.verdicts):
+        # the document's own mathematics sits on a discontinuity (a comparison between values that are equal up to
+        # rounding, e.g. lt(ln(1 + 1), ln(1 + k)) at k = 1): either side is a faithful answer - not judged
+        out.verdicts = [(sig, d_) for sig, d_ in out.verdicts if not any(v in sig for v in _VALUE_SIGS)]
+        out.classes.append("mismatch-at-ill-conditioned-point:not-judged")
+        out.nontrivial = None
+    return out
+
+
+def _examine(case: dict, ctx) -> Outcome:
     from mxlpy import sbml
 
     out = Outcome()
@@ -607,6 +727,9 @@ def examine(case: dict, ctx) -> Outcome:
             where = "compartment" if doc["comp_special"] else "other"
             if in_sympy_piecewise_eval(e):
                 out.bad("read-raises:RecursionError:raised-in-sympy:Piecewise.eval-does-not-terminate", error=repr(e)[:200])
+                return out
+            if raised_inside_sympy_piecewise(e) and _has_xor(doc):
+                out.bad(f"read-raises:{type(e).__name__}:raised-in-sympy:Piecewise-with-xor-condition", error=repr(e)[:200])
                 return out
             out.bad(f"read-raises:{type(e).__name__}:{root}:{where}", error=repr(e)[:200], special=doc["special_ids"])
             return out
@@ -640,6 +763,9 @@ def examine(case: dict, ctx) -> Outcome:
     except Exception as e:  # noqa: BLE001
         if in_sympy_piecewise_eval(e):
             out.bad("session:read-raises:RecursionError:raised-in-sympy:Piecewise.eval-does-not-terminate", error=repr(e)[:200])
+            return out
+        if raised_inside_sympy_piecewise(e) and (_has_xor(doc) or _has_xor(doc2)):
+            out.bad(f"session:read-raises:{type(e).__name__}:raised-in-sympy:Piecewise-with-xor-condition", error=repr(e)[:200])
             return out
         out.bad(f"session:read-raises:{type(e).__name__}", error=repr(e)[:200])
         return out
